@@ -296,7 +296,7 @@ def eval_stress(ctx, r, meta):
 def run(ctx):
     ctx.rule = ('debug-mode sessions, 1-4 nodes (nested addresses), all request types with their table-defined answer size; peer scripted step by step: '
                 'in-order answers with main/alternative (*_NA) type, unrelated spontaneous messages, lost answers + virtual time (+1 s / +3 s), and for '
-                'dirty histories duplicated and out-of-order answers; stress: 2-8 sender threads against an answering/lossy simulated bus. '
+                'dirty histories duplicated and out-of-order answers; histories mixing stall notices (nested, both orders) with budget deferral; stress: 2-8 sender threads against an answering/lossy simulated bus. '
                 'non-trivial = distinct clean history in which a message was held by the budget and later released (or stress history that got within '
                 '8 bytes of the limit)')
     ctx.assumptions = ['own request->answer size table in vlib/model.py', 'expiry is only required after the library had the opportunity to notice it '
@@ -312,12 +312,23 @@ def run(ctx):
         text, meta = gen_stress(ctx, k)
         meta['digest'] = hashlib.sha1(text.encode()).hexdigest()[:12]
         jobs.append(('tsan' if k % 2 else 'asan', text, ('stress', meta)))
+    # "never stranded ... whenever the node is not stalled": histories in which stall notices (nested, in both orders) and the budget interact -
+    # generator and reference model of C04, judged at every checkpoint (held messages must be out once no ancestor is stalled and the budget has room)
+    from . import C04
+    for k in range(ctx.n(80, 4000)):
+        text, subs, cps, meta = C04.gen_seq(ctx, 500000 + k)
+        meta['digest'] = hashlib.sha1(text.encode()).hexdigest()[:12]
+        meta['kind'] = 'stall+budget'
+        jobs.append(('asan', text, ('stallseq', subs, cps, meta)))
     for fl_ in ('asan', 'tsan'):
         js = [j for j in jobs if j[0] == fl_]
         res = runner.run_many(fl_, [(i, j[1]) for i, j in enumerate(js)], timeout=600)
         for j, r in zip(js, res):
             if j[2][0] == 'seq':
                 eval_seq(ctx, r, j[2][1], j[2][2], j[2][3])
+            elif j[2][0] == 'stallseq':
+                C04.eval_seq(ctx, r, j[2][1], j[2][2], j[2][3])
+                ctx.count('stall_budget_histories')
             else:
                 eval_stress(ctx, r, j[2][1])
     ctx.sample({'kind': jobs[0][2][3]['kind'], 'nodes': jobs[0][2][3]['nodes'], 'scenario_head': jobs[0][1].split('\n')[7:22]})
